@@ -638,6 +638,7 @@ func checkLexPartition(p *Prog, l *Ledger) {
 	}
 	m := NewInterpModel(p, "AddToken")
 	m.MainMode = true
+	m.InlinePkg = "lexer"
 	m.Explore(fn, []AV{Sym("s"), Sym("tokenType"), Sym("literal")}, nil)
 	ws, _ := m.G.Words(10)
 	want := "call(token.NewToken, tokenType, conv:string(s.source[s.start:s.current]), literal, s.line) ; fieldstore(s.tokens, append) ; return()"
